@@ -127,5 +127,7 @@ def note_check(prop, tier, replay, wanted_inv, wanted_or, rule_extra="", extra=N
     # (the two configurations that exhibit the recorded findings are explored in lock-step only, where the specification's
     #  taint says which window a failure belongs to; under free-running random schedules a hang could not be attributed)
     random_runs(run, exer, "Note", [(n, c) for n, c in cfgs if n not in ("n_free_mid", "n_2notify_free", "n_tree4", "n_free3")], 300 if tier == "quick" else 60000, prop, wanted_or)
+    if prop != "C19":
+        generated_notes(run, prop, wanted_or)
     run.cov.setdefault("conformant", True)
     return run.finish()
